@@ -47,7 +47,8 @@ S_I18N = [K("k3::S-Translate-name"), K("k3::S-Translate-id"), K("k3::S-Translate
           K("k3::S-I18nDomain"), K("k3::S-I18nContext"), K("k3::S-I18nTarget")]
 S_METAL = [K("k3::S-UseExternal"), K("k3::S-MacroUseInternal"), K("k3::S-MacroBody"),
            K("k3::S-MacroUseInternal-after-expr")]
-K2Q = [K("compiler.py::K2.__quote"), K("compiler.py::K2.__quote@char")]
+K2Q = [K("compiler.py::K2.__quote"), K("compiler.py::K2.__quote@char"),
+       U('pyvc.homshape', 'unit', 'K2.__quote.hom.shape')]
 K3TECH = TECH + "; applied to code emitted by the real compiler for schema templates (K3)"
 
 
@@ -266,7 +267,7 @@ PROPS = {
                       "side condition is checked on the AST), A-DECODE (decode returns str), A-TRANSLATE "
                       "(translate returns its argument, a str or None), re search semantics for the "
                       "5-character class. Not yet decided: the sinks (K3) and the choice of quote entity.",
-        "units": [K("compiler.py::K2.__quote"), K("compiler.py::K2.__quote@char")],
+        "units": K2Q,
         "not_decided": ["sinks: which quote/entity each emitted call site passes (pending K3)",
                         "'same elements and attributes as for a harmless value' follows from G1-G3 by "
                         "a context argument that is not machine-checked"],
